@@ -128,6 +128,46 @@ def run_cvc5(smt2, timeout_s=None):
     return verdict, time.time() - t0, None, reason
 
 
+Z3CLI = "z3-new"
+_DEF = re.compile(r"\(define-fun\s+(\S+)\s+\(\)\s+(\S+)\s+((?:\"(?:[^\"]|\"\")*\")|[^\s()]+|\(- \d+\))\)")
+
+
+def run_z3_cli(smt2, timeout_s=20):
+    """The z3 command-line front end uses a different default strategy than the API solver: third portfolio member."""
+    text = smt2.replace("(check-sat)", "(check-sat)\n(get-model)")
+    with tempfile.NamedTemporaryFile("w", suffix=".smt2", delete=False, dir=os.environ.get("TMPDIR", "/tmp")) as f:
+        f.write(text)
+        path = f.name
+    t0 = time.time()
+    model = None
+    try:
+        p = subprocess.run([Z3CLI, f"-T:{timeout_s}", path], capture_output=True, text=True, timeout=timeout_s + 5)
+        out = (p.stdout or "")
+        first = out.strip().splitlines()[0].strip() if out.strip() else "unknown"
+        verdict = first if first in ("sat", "unsat") else "unknown"
+        reason = "" if verdict != "unknown" else first[:200]
+        if verdict == "sat":
+            model = {}
+            for m in _DEF.finditer(out):
+                name, sort, val = m.group(1), m.group(2), m.group(3)
+                if sort == "String":
+                    v = val[1:-1].replace('""', '"')
+                    v = re.sub(r"\\u\{([0-9a-fA-F]+)\}", lambda mm: chr(int(mm.group(1), 16)), v)
+                    model[name] = {"str": v}
+                elif sort == "Int":
+                    model[name] = {"int": int(val.replace("(- ", "-").replace(")", ""))}
+                elif sort == "Bool":
+                    model[name] = {"bool": val == "true"}
+    except subprocess.TimeoutExpired:
+        verdict, reason = "unknown", "hard timeout (killed)"
+    finally:
+        try:
+            os.unlink(path)
+        except OSError:
+            pass
+    return verdict, time.time() - t0, model, reason
+
+
 def decide(job):
     """job: dict(id, smt2, expect_sat, both) -> result dict."""
     smt2 = job["smt2"]
@@ -150,6 +190,13 @@ def decide(job):
     if r2 in ("sat", "unsat"):
         res.update(backend="cvc5", verdict=r2)
         return res
+    if job.get("cvc5_s", 99) > 6:      # not for the cheap cover / finding probes
+        r3, dt3, m3, why3 = run_z3_cli(smt2)
+        res["time_s"] += dt3
+        if r3 in ("sat", "unsat"):
+            res.update(backend="z3-cli", verdict=r3, model=m3)
+            return res
+        why2 += f"; z3-cli: {why3}"
     res.update(backend="none", verdict="unknown", detail=f"z3: {why}; cvc5: {why2}")
     return res
 
@@ -168,6 +215,12 @@ def _work(i):
             pc = [a for a in o.pc if not _contains_quant(a)]
             smt2, stats = to_smt2(pc, o.goal, True, qf=False)
             job = {"id": i, "smt2": smt2, "z3_ms": 5000, "cvc5_s": 5}
+        elif getattr(o, "qf_only", False):
+            from .quant import _contains_quant
+            pc = [a for a in o.pc if not _contains_quant(a)]
+            smt2, stats = to_smt2(pc, o.goal, o.expect_sat, watch=o.watch)
+            stats = dict(stats, qf_only=True)
+            job = {"id": i, "smt2": smt2}
         else:
             smt2, stats = to_smt2(o.pc, o.goal, o.expect_sat, watch=o.watch)
             job = {"id": i, "smt2": smt2}
@@ -177,7 +230,7 @@ def _work(i):
         r = decide(job)
         if r["verdict"] == "sat" and stats.get("quantified") and not o.expect_sat:
             # a model of the instantiated query is only a candidate: refine with more instantiation rounds
-            smt2b, statsb = to_smt2(o.pc, o.goal, o.expect_sat, watch=o.watch, rounds=5)
+            smt2b, statsb = to_smt2(o.pc, o.goal, o.expect_sat, watch=o.watch, rounds=5)   # (also restores dropped hypotheses of qf_only clauses)
             rb = decide(dict(job, smt2=smt2b))
             rb["time_s"] += r["time_s"]
             if rb["verdict"] == "unsat":
